@@ -10,15 +10,7 @@ open J5V.Bcl
 
 theorem fieldOk_of_fieldOk2 {f : CField} (h : fieldOk2 f = true) : fieldOk j5Env f = true := by
   cases f with
-  | key fmt ek rules l =>
-    simp only [fieldOk2, Bool.and_eq_true] at h
-    obtain ⟨⟨hlr, hfmt⟩, hek⟩ := h
-    have hek' : entKeyOk ek = true := by
-      cases ek with
-      | nokey => rfl
-      | ek k t => cases k <;> cases t <;> first | rfl | cases hek
-    simp only [fieldOk, Bool.and_eq_true]
-    exact ⟨⟨hlr, hfmt⟩, hek'⟩
+  | key fmt ek rules l => exact h
   | string _ _ => exact h
   | bool _ _ => exact h
   | bytes _ => exact h
